@@ -174,3 +174,12 @@ Example verbatim_block_instance :
   = join_nl ["        # ```"; "        # x = 1"; "        # "; "        # if x:"; "        #     y = 2"; "        # ```";
              "        x = 1"; ""; "        if x:"; "            y = 2"].
 Proof. vm_compute. reflexivity. Qed.
+
+(* a verbatim statement written BEFORE the equations: parse_model puts verbatim symbols after the named ones, and the class
+   text follows the symbol list — the equations in symbol order, then the verbatim statement *)
+Example verbatim_statement_order :
+  block_of_script ("`self._W[t] = self._Y[t] * 2.0`" ++ nl_s ++ "Y = X + 1" ++ nl_s ++ "Z = Y * W")
+  = Some (join_nl ["        # Y[t] = X[t] + 1"; "        self._Y[t] = self._X[t] + 1"; "";
+                   "        # Z[t] = Y[t] * W[t]"; "        self._Z[t] = self._Y[t] * self._W[t]"; "";
+                   "        # `self._W[t] = self._Y[t] * 2.0`"; "        self._W[t] = self._Y[t] * 2.0"]).
+Proof. vm_compute. reflexivity. Qed.
